@@ -319,7 +319,7 @@ impl Prop for C14P {
                 sec_ex("corpus-truncations", corpus_for_mutation().len() as u64),
                 sec("nesting-families", tier.pick(24 * 12, 24 * 29)),
                 sec("cli-contract", tier.pick(500, 12_000)),
-                sec("generated-and-perturbed-programs", tier.pick(15_000, 300_000)),
+                sec("generated-and-perturbed-programs", tier.pick(30_000, 300_000)),
                 sec_ex("arithmetic-in-types", (9 * crate::props::c02::NOPER * crate::props::c02::NOPER) as u64),
             ],
             "all byte strings of <=2 bytes; all token sequences of <=4 (quick) / <=5 (thorough) tokens over the 28 grammar terminals fed to parse() as constructed token slices; random byte strings <=64 bytes incl. invalid UTF-8; random token soups <=60 tokens; every single-token deletion, insertion and substitution (28 kinds) of every corpus program; every truncation of every corpus program at a token boundary; unbalanced/nested families to depth 200; generated typed programs and their ill-typed perturbations in varied parenthesisation and multi-line layout (non-ASCII indentation, CRLF) so that every diagnostic of the checker is rendered; a subset of all classes through `gram check` at the process boundary; non-trivial = distinct input that got past the tokenizer",
